@@ -69,7 +69,7 @@ def k_inert(s: str) -> bool:
     return dec == s
 
 
-N_HOW = 16
+N_HOW = 20
 
 
 class SubStr(str):
@@ -115,6 +115,26 @@ def build_emit(how: int, s):
         return str(TagList(s))
     if how == 14:
         return HTMLDocument(Tag("div", Tag("p"), s)).render()["html"]
+    if how == 16:
+        t = Tag("script", s)          # what counts is the element's name when it is rendered: renamed, it is an ordinary element
+        t.name = "pre"
+        return t.get_html_string()
+    if how == 17:
+        t = Tag("style", "a{}", _add_ws=False)
+        t.name = "code"
+        t.append(s)
+        return Tag("div", t).get_html_string()
+    if how == 18:
+        t = Tag("script")
+        t.name = "span"
+        t.add_ws = False
+        t.extend([s, Tag("b", _add_ws=False)])
+        return Tag("div", "k", t).render()["html"]
+    if how == 19:
+        import copy
+        t = Tag("style", s)
+        t.name = "p"
+        return copy.copy(t).tagify().get_html_string()
     tl = TagList("a")
     tl += [s]
     return (tl + s + [s]).get_html_string()
@@ -123,11 +143,11 @@ def build_emit(how: int, s):
 @harness("C02", pre=lambda B, how, s: 0 <= how < N_HOW and len(s) <= B["L"],
          bounds={"quick": {"L": 2}, "thorough": {"L": 3}},
          shard={"how": range(N_HOW)},
-         sym=["s: str over all code points, len <= L"], sel=["how: 16 ways a string child reaches the output"],
+         sym=["s: str over all code points, len <= L"], sel=["how: 20 ways a string child reaches the output (16-19: an element constructed as script/style and renamed to an ordinary name before rendering)"],
          targets=["htmltools._core.Tag.get_html_string", "htmltools._core.TagList.get_html_string",
                   "htmltools._core._normalize_text", "htmltools._core._tagchilds_to_tagnodes"],
          timeout={"quick": 150, "thorough": 900},
-         outside="tree shapes other than the 16 listed emission paths (layout itself is C05/C06)")
+         outside="tree shapes other than the 20 listed emission paths (layout itself is C05/C06)")
 def h_emit_paths(how: int, s: str) -> bool:
     """render(T[s]) == render(T[MARK]) with MARK replaced by the reference escaping of s."""
     return build_emit(how, s) == subst(build_emit(how, MARK), MARK, ref_escape_text(s))
